@@ -3,8 +3,9 @@
 package cmdlib
 
 import (
-	"time"
 	"fmt"
+	"github.com/hashicorp/consul/types"
+	"time"
 
 	"github.com/hashicorp/consul/agent/structs"
 	"github.com/hashicorp/consul/api"
@@ -58,6 +59,7 @@ var SessionIDs = map[string]string{
 	"s3": "33333333-3333-3333-3333-333333333333",
 	"s4": "44444444-4444-4444-4444-444444444444",
 	"s5": "55555555-5555-5555-5555-555555555555",
+	"s6": "66666666-6666-6666-6666-666666666666",
 	"s9": "99999999-9999-9999-9999-999999999999", // never created by the C03/C04 alphabets
 }
 
@@ -204,13 +206,18 @@ type SessionSpec struct {
 	Node       string
 	Behavior   structs.SessionBehavior
 	NodeChecks []string
-	SessName   string // Session.Name (binds session-type checks)
-	TTL        string
-	LockDelay  int64
+	// LegacyChecks fills the deprecated Session.Checks list (older clients; the HTTP API adds NodeChecks next to it)
+	LegacyChecks []string
+	SessName     string // Session.Name (binds session-type checks)
+	TTL          string
+	LockDelay    int64
 }
 
 func (s SessionSpec) Create() world.Op {
 	n := fmt.Sprintf("session.create(%s@%s,%s,checks=%v)", s.Name, s.Node, s.Behavior, s.NodeChecks)
+	if len(s.LegacyChecks) > 0 {
+		n = fmt.Sprintf("session.create(%s@%s,%s,checks=%v,legacy-checks=%v)", s.Name, s.Node, s.Behavior, s.NodeChecks, s.LegacyChecks)
+	}
 	if s.LockDelay != 0 {
 		n = fmt.Sprintf("session.create(%s@%s,%s,checks=%v,lock-delay=%ds)", s.Name, s.Node, s.Behavior, s.NodeChecks, s.LockDelay)
 	}
@@ -221,7 +228,7 @@ func (s SessionSpec) Create() world.Op {
 		}
 		return structs.SessionRequestType, &structs.SessionRequest{Datacenter: DC, Op: structs.SessionCreate,
 			Session: structs.Session{ID: SessionIDs[s.Name], Name: s.SessName, Node: s.Node, Behavior: s.Behavior,
-				NodeChecks: s.NodeChecks, TTL: s.TTL, LockDelay: time.Duration(s.LockDelay) * time.Second}}, true
+				NodeChecks: s.NodeChecks, Checks: toCheckIDs(s.LegacyChecks), TTL: s.TTL, LockDelay: time.Duration(s.LockDelay) * time.Second}}, true
 	}}
 }
 
@@ -253,4 +260,12 @@ func TombstoneReap(c IdxClass) world.Op {
 		}
 		return structs.TombstoneRequestType, &structs.TombstoneRequest{Datacenter: DC, Op: structs.TombstoneReap, ReapIndex: idx}, true
 	}}
+}
+
+func toCheckIDs(ids []string) []types.CheckID {
+	var out []types.CheckID
+	for _, i := range ids {
+		out = append(out, types.CheckID(i))
+	}
+	return out
 }
